@@ -197,49 +197,82 @@ pub fn run_batch(spec: &CheckSpec, tier: &str, batch_seed: u64, workers: usize) 
                     }
                     let profile = profile_for(spec, i);
                     let seed = plan_seed(batch_seed, &spec.property, profile, i);
-                    let plan = crate::gen::gen_plan(&spec.property, profile, seed);
-                    let out = run_plan(&plan, &opts);
-                    local_runs += 1;
-                    local_sim += out.sim_ms;
-                    local_events += out.events;
-                    *local_profiles.entry(profile.to_string()).or_insert(0) += 1;
-                    local_probes.merge(&out.probes);
-                    local_fired.merge(&out.fired);
-                    let nt = (spec.nontrivial)(&plan, &out);
-                    local_sigs.push((out.sig, nt, out.state_hash));
-                    let mut rel: Vec<Violation> = Vec::new();
-                    for v in out.violations.iter() {
-                        if relevant(v, &spec.property) {
-                            rel.push(v.clone());
-                        } else {
-                            local_other.bump(&format!("{}:{}", v.property, v.rule));
+                    let base_plan = crate::gen::gen_plan(&spec.property, profile, seed);
+                    let base_out = run_plan(&base_plan, &opts);
+                    // sweep profiles: the fault-free base run counts the fault sites, then one run per site
+                    let mut work: Vec<(Plan, Option<RunOutcome>)> = vec![(base_plan.clone(), Some(base_out))];
+                    if profile.contains("sweep") && (profile.starts_with("crash") || profile.starts_with("iofault") || profile.starts_with("cancel")) {
+                        let subs = crate::gen2::expand_sweep(&base_plan, work[0].1.as_ref().unwrap(), tier == "thorough");
+                        for sp in subs {
+                            work.push((sp, None));
                         }
                     }
-                    let want_sample = i < 3;
-                    if !rel.is_empty() || want_sample {
-                        let mut sh = shared.lock().unwrap();
-                        if want_sample {
-                            let opts2 = RunOpts { keep_trace: true, ..Default::default() };
-                            drop(sh);
-                            let out2 = run_plan(&plan, &opts2);
-                            sh = shared.lock().unwrap();
-                            sh.samples.push(sample_of(&plan, &out2));
+                    let mut first = true;
+                    for (plan, pre_out) in work.into_iter() {
+                        if start.elapsed().as_secs() >= budget_s + 20 {
+                            break;
                         }
-                        for v in rel {
-                            let dup = sh.found.iter().any(|f| f.violation.rule == v.rule && f.violation.cause == v.cause);
-                            if !dup {
-                                sh.found.push(Found { plan: plan.clone(), violation: v, index: i });
-                            } else if let Some(f) = sh.found.iter_mut().find(|f| f.violation.rule == v.rule && f.violation.cause == v.cause) {
-                                // keep the smallest plan as the representative
-                                if plan.op_count() < f.plan.op_count() {
-                                    f.plan = plan.clone();
-                                    f.violation = v;
-                                    f.index = i;
-                                }
+                        let out = match pre_out {
+                            Some(o) => o,
+                            None => run_plan(&plan, &opts),
+                        };
+                        local_runs += 1;
+                        local_sim += out.sim_ms;
+                        local_events += out.events;
+                        *local_profiles.entry(profile.to_string()).or_insert(0) += 1;
+                        local_probes.merge(&out.probes);
+                        local_fired.merge(&out.fired);
+                        let nt = (spec.nontrivial)(&plan, &out);
+                        local_sigs.push((out.sig, nt, out.state_hash));
+                        let mut rel: Vec<Violation> = Vec::new();
+                        for v in out.violations.iter() {
+                            if relevant(v, &spec.property) {
+                                rel.push(v.clone());
+                            } else {
+                                local_other.bump(&format!("{}:{}", v.property, v.rule));
                             }
                         }
-                        if sh.found.len() >= 12 {
-                            stop.store(true, Ordering::Relaxed);
+                        let want_sample = i < 3 && first;
+                        first = false;
+                        if !rel.is_empty() || want_sample {
+                            let mut sh = shared.lock().unwrap();
+                            if want_sample {
+                                let opts2 = RunOpts { keep_trace: true, ..Default::default() };
+                                drop(sh);
+                                let out2 = run_plan(&plan, &opts2);
+                                sh = shared.lock().unwrap();
+                                sh.samples.push(sample_of(&plan, &out2));
+                            }
+                            // a sweep operation that failed is reported as the explicit single damage
+                            let mut plan = plan.clone();
+                            if let Some((uid, dmg)) = &out.sweep_hit {
+                                for s in plan.sessions.iter_mut() {
+                                    for c in s.clients.iter_mut() {
+                                        for o in c.iter_mut() {
+                                            if o.uid == *uid {
+                                                if let OpKind::RestartSweep { lazy, .. } = o.kind {
+                                                    o.kind = OpKind::Restart { lazy, damage: dmg.clone() };
+                                                }
+                                            }
+                                        }
+                                    }
+                                }
+                            }
+                            for v in rel {
+                                let dup = sh.found.iter().any(|f| f.violation.rule == v.rule && f.violation.cause == v.cause);
+                                if !dup {
+                                    sh.found.push(Found { plan: plan.clone(), violation: v, index: i });
+                                } else if let Some(f) = sh.found.iter_mut().find(|f| f.violation.rule == v.rule && f.violation.cause == v.cause) {
+                                    if plan.op_count() < f.plan.op_count() {
+                                        f.plan = plan.clone();
+                                        f.violation = v;
+                                        f.index = i;
+                                    }
+                                }
+                            }
+                            if sh.found.len() >= 12 {
+                                stop.store(true, Ordering::Relaxed);
+                            }
                         }
                     }
                 }
